@@ -10328,6 +10328,17 @@ class TensorDictBase(MutableMapping):
                 result.update(items)
         return result
 
+    def _inplace_tensor_operand(self, other, vals):
+        """Broadcasts a tensor operand of an in-place op against the batch dims, as the out-of-place ops do.
+
+        An in-place op cannot change the batch size, hence ``other`` must be expandable to it.
+        Scalars and 0-d tensors are returned as is.
+        """
+        if isinstance(other, torch.Tensor) and other.ndim:
+            other = other.expand(self.batch_size)
+            return [expand_as_right(other, val) for val in vals]
+        return other
+
     def add_(
         self,
         other: TensorDictBase | torch.Tensor | float,
@@ -10344,7 +10355,7 @@ class TensorDictBase(MutableMapping):
             _, other_val = other._items_list(True, True, sorting_keys=keys)
         else:
             vals = self._values_list(True, True)
-            other_val = other
+            other_val = self._inplace_tensor_operand(other, vals)
         if alpha is not None:
             torch._foreach_add_(vals, other_val, alpha=alpha)
         else:
@@ -10619,7 +10630,7 @@ class TensorDictBase(MutableMapping):
             _, other_val = other._items_list(True, True, sorting_keys=keys)
         else:
             vals = self._values_list(True, True)
-            other_val = other
+            other_val = self._inplace_tensor_operand(other, vals)
         if alpha is not None:
             torch._foreach_sub_(vals, other_val, alpha=alpha)
         else:
@@ -10638,7 +10649,7 @@ class TensorDictBase(MutableMapping):
             _, other_val = other._items_list(True, True, sorting_keys=keys)
         else:
             vals = self._values_list(True, True)
-            other_val = other
+            other_val = self._inplace_tensor_operand(other, vals)
         torch._foreach_mul_(vals, other_val)
         return self
 
@@ -10712,7 +10723,7 @@ class TensorDictBase(MutableMapping):
             _, other_val = other._items_list(True, True, sorting_keys=keys)
         else:
             vals = self._values_list(True, True)
-            other_val = other
+            other_val = self._inplace_tensor_operand(other, vals)
         torch._foreach_maximum_(vals, other_val)
         return self
 
@@ -10781,7 +10792,7 @@ class TensorDictBase(MutableMapping):
             _, other_val = other._items_list(True, True, sorting_keys=keys)
         else:
             vals = self._values_list(True, True)
-            other_val = other
+            other_val = self._inplace_tensor_operand(other, vals)
         torch._foreach_minimum_(vals, other_val)
         return self
 
@@ -10850,7 +10861,7 @@ class TensorDictBase(MutableMapping):
             _, other_val = other._items_list(True, True, sorting_keys=keys)
         else:
             vals = self._values_list(True, True)
-            other_val = other
+            other_val = self._inplace_tensor_operand(other, vals)
         try:
             torch._foreach_clamp_max_(vals, other_val)
         except RuntimeError as err:
@@ -10935,7 +10946,7 @@ class TensorDictBase(MutableMapping):
             _, other_val = other._items_list(True, True, sorting_keys=keys)
         else:
             vals = self._values_list(True, True)
-            other_val = other
+            other_val = self._inplace_tensor_operand(other, vals)
         try:
             torch._foreach_clamp_min_(vals, other_val)
         except RuntimeError as err:
@@ -11086,7 +11097,7 @@ class TensorDictBase(MutableMapping):
             _, other_val = other._items_list(True, True, sorting_keys=keys)
         else:
             vals = self._values_list(True, True)
-            other_val = other
+            other_val = self._inplace_tensor_operand(other, vals)
         torch._foreach_pow_(vals, other_val)
         return self
 
@@ -11160,7 +11171,7 @@ class TensorDictBase(MutableMapping):
             _, other_val = other._items_list(True, True, sorting_keys=keys)
         else:
             vals = self._values_list(True, True)
-            other_val = other
+            other_val = self._inplace_tensor_operand(other, vals)
         torch._foreach_div_(vals, other_val)
         return self
 
